@@ -46,7 +46,7 @@ CONSTS = """CONSTANTS
 #   swn  StartWithNewest   X01-F1 + X01-F2: TRUE once Start begins with the newest configuration handed so far
 #   od / of  OrderedDelivery / OrderedForward   X01-F3: TRUE once reloads reach the run loop / the instance in order
 # (a wrong value only shows as DRIFT of the recorded runs against layer 1, never as a verdict)
-CODE = dict(kws="FALSE", swn="FALSE", od="FALSE", of="FALSE", late="TRUE")
+CODE = dict(kws="TRUE", swn="FALSE", od="FALSE", of="FALSE", late="TRUE")
 FIXED = dict(kws="TRUE", swn="TRUE", od="TRUE", of="TRUE", late="FALSE")
 
 OPS = {"GStart": "Start", "GStop": "Stop", "GReload": "Reload", "GHold": "Hold", "GRelease": "Release",
